@@ -4,8 +4,8 @@
 cd /verif; export NO_REGEN=1
 lane() { n=$1; shift; ids=""; for P in "$@"; do ids="$ids $(ls seeded | grep "^$P-" | tr '\n' ' ')"; done; nids=""; for P in "$@"; do nids="$nids $(ls neutral | grep "^$P-" | tr '\n' ' ')"; done
   (bash harness/seedretest.sh $ids > /tmp/wt/final-seeded-$n.log 2>&1; bash harness/neutralretest.sh $nids > /tmp/wt/final-neutral-$n.log 2>&1) & }
-lane A C07 C10 C12 C14 C17
-lane B C01 C02 C03 C05 C09 C13 C16 C19
+lane A C03 C07 C10 C12 C14 C17
+lane B C01 C02 C05 C09 C13 C16 C19
 lane C C04 C06 C08 C11 C15 C18 C20
 wait
 unset NO_REGEN; ./check regen >/dev/null 2>&1
